@@ -120,6 +120,8 @@ func (t *TxnRec) LockedKeys() map[string]uint64 {
 type Violation struct {
 	Rule string
 	Msg  string
+	// Known is the key of the known-finding class this violation belongs to ("" = none)
+	Known string
 }
 
 func (v Violation) String() string { return v.Rule + ": " + v.Msg }
@@ -143,7 +145,7 @@ func OutcomeOf(t *TxnRec, truth *Truth) (Outcome, []Violation) {
 		if v := truth.Committed(k, t.StartTS); v != nil {
 			present = append(present, k)
 			if out.Committed && out.CommitTS != v.Commit {
-				vs = append(vs, Violation{"atomicity", fmt.Sprintf("txn %d (start %d) committed key %s at %d but another key at %d", t.ID, t.StartTS, k, v.Commit, out.CommitTS)})
+				vs = append(vs, Violation{Rule: "atomicity", Msg: fmt.Sprintf("txn %d (start %d) committed key %s at %d but another key at %d", t.ID, t.StartTS, k, v.Commit, out.CommitTS)})
 			}
 			out.Committed, out.CommitTS = true, v.Commit
 			wantKind := "put"
@@ -151,7 +153,7 @@ func OutcomeOf(t *TxnRec, truth *Truth) (Outcome, []Violation) {
 				wantKind = "del"
 			}
 			if v.Kind != wantKind || (wantKind == "put" && !bytes.Equal(v.Value, w.Value)) {
-				vs = append(vs, Violation{"durability", fmt.Sprintf("txn %d key %s: store has %s %q, the txn's last write was %s %q", t.ID, k, v.Kind, v.Value, w.Op, w.Value)})
+				vs = append(vs, Violation{Rule: "durability", Msg: fmt.Sprintf("txn %d key %s: store has %s %q, the txn's last write was %s %q", t.ID, k, v.Kind, v.Value, w.Op, w.Value)})
 			}
 		} else {
 			missing = append(missing, k)
@@ -171,14 +173,14 @@ func OutcomeOf(t *TxnRec, truth *Truth) (Outcome, []Violation) {
 	sort.Strings(missing)
 	sort.Strings(present)
 	if len(present) > 0 && len(missing) > 0 {
-		vs = append(vs, Violation{"atomicity", fmt.Sprintf("txn %d (start %d) is committed on %v but not on %v", t.ID, t.StartTS, present, missing)})
+		vs = append(vs, Violation{Rule: "atomicity", Msg: fmt.Sprintf("txn %d (start %d) is committed on %v but not on %v", t.ID, t.StartTS, present, missing)})
 	}
 	return out, vs
 }
 
 // CheckHistory evaluates the history rules of C01 (R-ack, R-read, R-ww, R-lock, R-insert, R-ext, R-nolock)
 // over the recorded transactions and the final truth. keys = all keys of the case.
-func CheckHistory(txns []*TxnRec, truth *Truth, keys []string, rules map[string]bool) []Violation {
+func CheckHistory(txns []*TxnRec, truth *Truth, keys []string, rules map[string]bool, entries ...*Entry) []Violation {
 	var vs []Violation
 	on := func(r string) bool { return rules == nil || rules[r] }
 	outcomes := map[int]Outcome{}
@@ -201,20 +203,20 @@ func CheckHistory(txns []*TxnRec, truth *Truth, keys []string, rules map[string]
 					}
 				}
 				if need && !o.Committed {
-					vs = append(vs, Violation{"ack", fmt.Sprintf("Commit of txn %d (start %d) returned nil but its writes are not in the store", t.ID, t.StartTS)})
+					vs = append(vs, Violation{Rule: "ack", Msg: fmt.Sprintf("Commit of txn %d (start %d) returned nil but its writes are not in the store", t.ID, t.StartTS)})
 				}
 				if o.Committed && t.CommitTS != 0 && o.CommitTS != t.CommitTS {
-					vs = append(vs, Violation{"ack", fmt.Sprintf("txn %d reports commit ts %d but the store committed it at %d", t.ID, t.CommitTS, o.CommitTS)})
+					vs = append(vs, Violation{Rule: "ack", Msg: fmt.Sprintf("txn %d reports commit ts %d but the store committed it at %d", t.ID, t.CommitTS, o.CommitTS)})
 				}
 			case "undetermined":
 			default:
 				if o.Committed {
-					vs = append(vs, Violation{"ack", fmt.Sprintf("Commit of txn %d (start %d) failed definitely (%s: %s) but the txn is committed at %d", t.ID, t.StartTS, t.CommitClass, t.CommitErr, o.CommitTS)})
+					vs = append(vs, Violation{Rule: "ack", Msg: fmt.Sprintf("Commit of txn %d (start %d) failed definitely (%s: %s) but the txn is committed at %d", t.ID, t.StartTS, t.CommitClass, t.CommitErr, o.CommitTS)})
 				}
 			}
 		}
 		if on("ack") && t.Ended == "rollback" && o.Committed {
-			vs = append(vs, Violation{"ack", fmt.Sprintf("txn %d was rolled back by its owner but is committed at %d", t.ID, o.CommitTS)})
+			vs = append(vs, Violation{Rule: "ack", Msg: fmt.Sprintf("txn %d was rolled back by its owner but is committed at %d", t.ID, o.CommitTS)})
 		}
 		// R-read
 		if on("read") {
@@ -225,7 +227,7 @@ func CheckHistory(txns []*TxnRec, truth *Truth, keys []string, rules map[string]
 				want, ok := truth.ValueAt(r.Key, r.AtTS)
 				// the reader's own committed records are not part of its snapshot
 				if ok != r.Found || (ok && !bytes.Equal(want, r.Value)) {
-					vs = append(vs, Violation{"read", fmt.Sprintf("txn %d (start %d) %s(%s) at ts %d returned (%q,found=%v) but the newest version committed at or below that ts is (%q,found=%v); versions: %s",
+					vs = append(vs, Violation{Rule: "read", Msg: fmt.Sprintf("txn %d (start %d) %s(%s) at ts %d returned (%q,found=%v) but the newest version committed at or below that ts is (%q,found=%v); versions: %s",
 						t.ID, t.StartTS, r.API, r.Key, r.AtTS, r.Value, r.Found, want, ok, truth.Describe([]string{r.Key}))})
 				}
 			}
@@ -235,7 +237,7 @@ func CheckHistory(txns []*TxnRec, truth *Truth, keys []string, rules map[string]
 			for k, fu := range t.LockedKeys() {
 				for _, v := range truth.Versions[k] {
 					if v.Start != t.StartTS && v.Kind != "rollback" && v.Commit > fu && v.Commit < o.CommitTS {
-						vs = append(vs, Violation{"lock", fmt.Sprintf("txn %d locked key %s at for-update ts %d and committed at %d, yet txn@%d committed on it at %d in between", t.ID, k, fu, o.CommitTS, v.Start, v.Commit)})
+						vs = append(vs, Violation{Rule: "lock", Msg: fmt.Sprintf("txn %d locked key %s at for-update ts %d and committed at %d, yet txn@%d committed on it at %d in between", t.ID, k, fu, o.CommitTS, v.Start, v.Commit)})
 					}
 				}
 			}
@@ -259,7 +261,12 @@ func CheckHistory(txns []*TxnRec, truth *Truth, keys []string, rules map[string]
 							continue
 						}
 						if v.Kind == "put" {
-							vs = append(vs, Violation{"insert", fmt.Sprintf("txn %d declared key %s as an insert and committed at %d although the key had value %q (committed at %d) at that point", t.ID, k, o.CommitTS, v.Value, v.Commit)})
+							viol := Violation{Rule: "insert", Msg: fmt.Sprintf("txn %d declared key %s as an insert and committed at %d although the key had value %q (committed at %d) at that point", t.ID, k, o.CommitTS, v.Value, v.Commit)}
+							if w, ok := last[k]; ok && itd[k] && w.Op == "delete" && !t.Pessimistic && createdAfterCheck(entries, t.StartTS, v.Start, k) {
+								viol.Known = KnownInsertDeleteWindow
+								viol.Msg += " [the insert was deleted again, so the key is only checked (Op_CheckNotExists, no lock); the other transaction prewrote the key after that check had passed]"
+							}
+							vs = append(vs, viol)
 						}
 						break
 					}
@@ -300,7 +307,7 @@ func CheckHistory(txns []*TxnRec, truth *Truth, keys []string, rules map[string]
 						sb = fu
 					}
 					if sa < ob.CommitTS && sb < oa.CommitTS {
-						vs = append(vs, Violation{"ww", fmt.Sprintf("txns %d [%d,%d] and %d [%d,%d] overlap and both committed a write to key %s", a.ID, a.StartTS, oa.CommitTS, b.ID, b.StartTS, ob.CommitTS, k)})
+						vs = append(vs, Violation{Rule: "ww", Msg: fmt.Sprintf("txns %d [%d,%d] and %d [%d,%d] overlap and both committed a write to key %s", a.ID, a.StartTS, oa.CommitTS, b.ID, b.StartTS, ob.CommitTS, k)})
 					}
 				}
 			}
@@ -315,7 +322,7 @@ func CheckHistory(txns []*TxnRec, truth *Truth, keys []string, rules map[string]
 			}
 			for _, b := range txns {
 				if b.ID != a.ID && a.CommitStep[1] < b.BeginStep && b.StartTS < oa.CommitTS {
-					vs = append(vs, Violation{"ext", fmt.Sprintf("txn %d was acknowledged committed (commit ts %d) before txn %d began, but that one got start ts %d", a.ID, oa.CommitTS, b.ID, b.StartTS)})
+					vs = append(vs, Violation{Rule: "ext", Msg: fmt.Sprintf("txn %d was acknowledged committed (commit ts %d) before txn %d began, but that one got start ts %d", a.ID, oa.CommitTS, b.ID, b.StartTS)})
 				}
 			}
 		}
@@ -324,7 +331,7 @@ func CheckHistory(txns []*TxnRec, truth *Truth, keys []string, rules map[string]
 	if on("nolock") {
 		for _, k := range keys {
 			if l := truth.Locks[k]; l != nil {
-				vs = append(vs, Violation{"nolock", fmt.Sprintf("key %s still carries a %s lock of txn@%d after recovery", k, l.Kind, l.Start)})
+				vs = append(vs, Violation{Rule: "nolock", Msg: fmt.Sprintf("key %s still carries a %s lock of txn@%d after recovery", k, l.Kind, l.Start)})
 			}
 		}
 	}
@@ -375,4 +382,39 @@ func ModeOf(entries []*Entry, startTS uint64) string {
 		return first + ">" + last
 	}
 	return first
+}
+
+// KnownInsertDeleteWindow is the known-finding class of R-insert: an optimistic insert-then-delete is sent as a
+// non-locking existence check, so a key created after the check passed and before the commit goes unnoticed.
+const KnownInsertDeleteWindow = "C01/insert-delete-check-window"
+
+// createdAfterCheck reports whether the transaction `other` first prewrote key after txn `start`'s successful
+// Op_CheckNotExists on key had been executed by the store (judged by the store-side execution order).
+func createdAfterCheck(entries []*Entry, start, other uint64, key string) bool {
+	var check, create int64
+	for _, e := range entries {
+		if e.Type != tikvrpc.CmdPrewrite || !e.Delivered {
+			continue
+		}
+		req, ok := e.Req.(*kvrpcpb.PrewriteRequest)
+		if !ok {
+			continue
+		}
+		resp, _ := e.Resp.(*kvrpcpb.PrewriteResponse)
+		if resp == nil || len(resp.Errors) > 0 || resp.RegionError != nil {
+			continue
+		}
+		for _, m := range req.Mutations {
+			if string(m.Key) != key {
+				continue
+			}
+			if req.StartVersion == start && m.Op == kvrpcpb.Op_CheckNotExists && e.ExecSeq > check {
+				check = e.ExecSeq // the last successful check
+			}
+			if req.StartVersion == other && (create == 0 || e.ExecSeq < create) {
+				create = e.ExecSeq // the first successful prewrite of the key
+			}
+		}
+	}
+	return check != 0 && create != 0 && create > check
 }
